@@ -96,8 +96,66 @@ def extract(run):
     return X.generate("C09")
 
 
+def derived_quantity_stream(run, n):
+    """the derived quantities reach the model as defined: the bootstrap fits regress the reporting units' normalised margin
+    (dem - gop) / (dem + gop) and turnout factor (dem + gop) / (baseline dem + baseline gop); observed at the OLS solver"""
+    import numpy as np
+
+    C.use_repo()
+    from elexsolver.OLSRegressionSolver import OLSRegressionSolver as OLS
+
+    rng = run.rng
+    for _ in range(n):
+        case = A.gen_case(rng, pi_method="bootstrap", roles=["reporting"] * 6 + ["partial"] * 3 + ["third-party-heavy"] * 3, unexpected=False)
+        case["params"] = dict(case["params"], turnout_factor_upper=3.0, turnout_factor_lower=0.1)
+        case["tf_lo"], case["tf_hi"] = 0.1, 3.0
+        ys = []
+        orig = OLS.fit
+
+        def rec(s, x, y, *a, **kw):
+            ys.append(sorted(float(v) for v in np.asarray(y).ravel()))
+            return orig(s, x, y, *a, **kw)
+
+        OLS.fit = rec
+        try:
+            res = A.run_case(case)
+        finally:
+            OLS.fit = orig
+        L = A.light(case)
+        run.case(dict(L, derived_quantities=True), True)
+        run.count("derived quantities at the solver")
+        if "raises" in res:
+            continue
+        e = case["election"]
+        ud = res["tables"]["unit_data"]
+        fitted = set(ud[(ud.unit_category == "expected") & (ud.reporting == 1)].geographic_unit_fips)
+        cur = e.cur.set_index("geographic_unit_fips")
+        pre = e.pre.set_index("geographic_unit_fips")
+        nm, tf = [], []
+        for u in fitted:
+            d, g = float(cur.loc[u, "results_dem"]), float(cur.loc[u, "results_gop"])
+            nm.append((d - g) / (d + g) if d + g else 0.0)
+            tf.append((d + g) / float(pre.loc[u, "baseline_dem"] + pre.loc[u, "baseline_gop"]))
+
+        def present(want):
+            want = sorted(want)
+            return any(len(y) == len(want) and all(abs(a - b) <= 1e-12 * max(1.0, abs(b)) for a, b in zip(y, want)) for y in ys)
+
+        if not present(nm):
+            run.violation("no regression of the bootstrap run is fitted on the reporting units' normalised margins (dem - gop) / (dem + gop)",
+                          input=L, impl={"fits": len(ys)}, predicate="normMargin definition", signature="C09:normalized-margin",
+                          replay_case=A.case_json(case))
+        elif not present(tf):
+            run.violation("no regression of the bootstrap run is fitted on the reporting units' two-party turnout factors",
+                          input=L, impl={"fits": len(ys)}, predicate="turnoutFactor definition", signature="C09:turnout-factor",
+                          replay_case=A.case_json(case))
+        else:
+            run.traces += 1
+
+
 def explore(run, driver, budget):
     K.explore(run, driver, budget, PROP, RULE, pi_cycle=("nonparametric", "nonparametric", "gaussian", "bootstrap"))
+    derived_quantity_stream(run, {"quick": 4, "thorough": 100, "search": 20}[budget])
     n = {"quick": 6, "thorough": 150, "search": 30}[budget]
     for _ in range(n):
         run_outlier(run, driver, outlier_case(run.rng))
